@@ -73,7 +73,7 @@ def add_edge_families(p, cfgname, edges):
 
         def g(ids, rng, lst=lst):
             out = []
-            ifaces = ["rec", "rec", "spi", "p8", "p16"]
+            ifaces = ["spi", "spi", "p8", "p16", "spi_ref"] if "_seq_" in cfgname else ["rec", "rec", "spi", "p8", "p16"]
             for i, d in enumerate(lst):
                 c = d["cfg"]
                 cfg = gen.cfg("tiny565_%dx%d" % (c["W"], c["H"]), c["w"], c["h"], c["ox"], c["oy"], d["o0"]["rot"], d["o0"]["mir"],
@@ -94,13 +94,15 @@ def plan_for(prop, tier, seed):
     G = gen
     MCP = "MC_Placement"
     if prop == "C01":
-        p.mc = [(MCP, "MC_Placement_in_q" if q else "MC_Placement_in_t", 12, 3000, None)]
+        p.mc = [(MCP, "MC_Placement_in_q" if q else "MC_Placement_in_t", 12, 3000, None),
+                (MCP, "MC_Placement_seq_q" if q else "MC_Placement_seq_t", 12, 3000, None)]
         p.rule = ("scenario = configuration (model, window, orientation, transport, SPI buffer) + program; non-trivial: "
                   "the program contains at least 3 in-bounds drawing calls through at least 2 different entry points")
         p.nontrivial = lambda sc: len(drawing_calls(sc)) >= 3 and len({c["name"] for c in drawing_calls(sc)}) >= 2
         p.families = [
             ("tiny-rec", True, "dev", lambda ids, rng: G.f_tiny_placement(ids, rng, ifaces=("rec",), sample=0.35 if q else 1.0)),
             ("tiny-xport", True, "dev", lambda ids, rng: G.f_tiny_placement(ids, rng, ifaces=("spi", "p8", "p16"), sample=0.06 if q else 0.5)),
+            ("tiny-byref", True, "dev", lambda ids, rng: G.f_tiny_placement(ids, rng, ifaces=("spi_ref", "p8_ref", "p16_ref", "rec_ref"), sample=0.02 if q else 0.2)),
             ("tiny-nobatch", False, "dev", lambda ids, rng: G.f_tiny_placement(ids, rng, ifaces=("rec", "spi"), sample=0.08 if q else 0.5)),
             ("smallalpha", True, "dev", lambda ids, rng: G.f_small_alphabet(ids, rng, 500 if q else 8000, ifaces=("spi", "spi", "p8", "p16", "rec"))),
         ]
@@ -126,6 +128,7 @@ def plan_for(prop, tier, seed):
         p.nontrivial = lambda sc: any(c["name"] == "draw_iter" and len(c["px"]) >= 2 for c in sc["calls"])
         p.families = [
             ("long", True, "dev", lambda ids, rng: G.f_long_streams(ids, rng, 250 if q else 4000, ifaces=("rec", "rec", "spi", "p8"))),
+            ("long-oob", True, "dev", lambda ids, rng: G.f_long_streams(ids, rng, 60 if q else 1000, ifaces=("rec",), oob=True)),
             ("long-nobatch", False, "dev", lambda ids, rng: G.f_long_streams(ids, rng, 60 if q else 600, ifaces=("rec", "spi"), maxlen=150)),
             ("tiny-streams", True, "dev", lambda ids, rng: G.f_tiny_placement(ids, rng, ifaces=("rec",), sample=0.1 if q else 0.6)),
         ]
@@ -162,7 +165,7 @@ def plan_for(prop, tier, seed):
         p.families = [
             ("reorient-tiny", True, "dev", lambda ids, rng: G.f_reorient(ids, rng, G.tiny_model_list([(2, 3), (3, 2), (4, 3), (1, 1), (3, 3)], rng, 8 if q else 60), ifaces=("rec",))),
             ("reorient-xport", True, "dev", lambda ids, rng: G.f_reorient(ids, rng, G.tiny_model_list([(2, 3), (4, 3)], rng, 3 if q else 20), ifaces=("spi", "p8", "p16"), sample=0.5 if q else 1.0)),
-            ("reorient-real", True, "dev", lambda ids, rng: G.f_reorient(ids, rng, G.real_model_list(rng, ["st7789", "ili9341_666", "gc9a01"] if q else None, full=not q), ifaces=("rec",), sample=0.5 if q else 1.0)),
+            ("reorient-real", True, "dev", lambda ids, rng: G.f_reorient(ids, rng, G.real_model_list(rng, None, n_windows=1 if q else 2, full=not q, maxside=12), ifaces=("rec",), sample=0.4 if q else 1.0)),
             ("reorient-nobatch", False, "dev", lambda ids, rng: G.f_reorient(ids, rng, G.tiny_model_list([(2, 3), (4, 3)], rng, 3 if q else 20), ifaces=("rec",))),
         ]
     elif prop == "C20":
@@ -176,7 +179,7 @@ def plan_for(prop, tier, seed):
                                             + G.f_oob_rects(ids, rng, G.tiny_model_list([(4, 3), (7, 5)], rng, 3 if q else 30), ifaces=("spi",))),
         ]
     elif prop == "C06":
-        p.mc = [("MC_Spi", "MC_Spi", 8, 900, None)]
+        p.mc = [("MC_Spi", "MC_Spi", 8, 900, None), (MCP, "MC_Placement_seq_q" if q else "MC_Placement_seq_t", 12, 3000, None)]
         p.rule = ("case = one interface-level call on the real SpiInterface (buffer length, words per pixel, count / pixel list / "
                   "parameter list); non-trivial: count is 0, a multiple of the buffer capacity, or spans more than one buffer; "
                   "or a parameter list longer than 0")
@@ -185,9 +188,10 @@ def plan_for(prop, tier, seed):
             ("spi-grid", True, "dev", lambda ids, rng: G.f_spi_grid(ids, rng, sample=0.5 if q else 1.0, big=6 if q else 120)),
             ("spi-displays", True, "dev", lambda ids, rng: G.f_tiny_placement(ids, rng, ifaces=("spi",), sample=0.04 if q else 0.4)),
             ("spi-smallalpha", True, "dev", lambda ids, rng: G.f_small_alphabet(ids, rng, 400 if q else 6000, ifaces=("spi",))),
+            ("spi-faults", True, "dev", lambda ids, rng: G.f_xport_faults(ids, rng, ifaces=("spi",), n=200 if q else 3000)),
         ]
     elif prop == "C07":
-        p.mc = [("MC_Parallel", "MC_Parallel", 8, 900, None)]
+        p.mc = [("MC_Parallel", "MC_Parallel", 8, 900, None), (MCP, "MC_Placement_seq_q" if q else "MC_Placement_seq_t", 12, 3000, None)]
         p.rule = ("case = word sequences / repeat counts on the real ParallelInterface (8 and 16 pins) and set_value histories "
                   "with injected data-pin failures; non-trivial: equal consecutive words, an all-equal repeated pixel, or a failure")
         p.nontrivial = lambda sc: True
@@ -195,6 +199,7 @@ def plan_for(prop, tier, seed):
             ("parallel", True, "dev", lambda ids, rng: G.f_parallel(ids, rng, sample=0.4 if q else 1.0, big=2 if q else 12)),
             ("parallel-displays", True, "dev", lambda ids, rng: G.f_tiny_placement(ids, rng, ifaces=("p8", "p16"), sample=0.03 if q else 0.3)),
             ("parallel-smallalpha", True, "dev", lambda ids, rng: G.f_small_alphabet(ids, rng, 300 if q else 5000, ifaces=("p8", "p16"))),
+            ("parallel-faults", True, "dev", lambda ids, rng: G.f_xport_faults(ids, rng, ifaces=("p8", "p16"), n=300 if q else 5000)),
         ]
     elif prop == "C09":
         p.mc = [("MC_Small", "MC_Small_init", 8, 900, None)]
